@@ -73,7 +73,12 @@ def cases(draw, tier):
                                  if container == "json" else gen._H5TEXT1),
             "date": c01.date_to_json(draw(NAIVE_DATES)),
             "double": [draw(st.integers(0, 200)), draw(st.integers(0, 200))],
-            "sub": draw(st.sampled_from([False] * 30 + [True]))}
+            "sub": draw(st.sampled_from([False] * 30 + [True])),
+            # explicit creation_date argument / omitted (the writer stamps
+            # the time itself) / omitted on a table that carries a creation
+            # date of its own (what a loaded table does)
+            "date_mode": draw(st.sampled_from(["explicit", "explicit",
+                                               "omitted", "attr"]))}
 
 
 def strategy(tier):
@@ -618,15 +623,20 @@ def check(case, rec):
     has_nz = any(x != 0 for row in src["rows"] for x in row)
     with tempfile.TemporaryDirectory(prefix="vf-c15-", dir=TMP) as d:
         base = os.path.join(d, "base.biom")
+        mode = case.get("date_mode", "explicit")
+        rec.cls("date:" + mode)
+        dkw = {"creation_date": date} if mode == "explicit" else {}
+        if mode == "attr":
+            t.create_date = date
         if container == "json":
-            text = t.to_json(gby, creation_date=date)
+            text = t.to_json(gby, **dkw)
             with open(base, "w", encoding="utf8") as f:
                 f.write(text)
             doc0 = json.loads(text)
         else:
             import h5py
             with h5py.File(base, "w") as f:
-                t.to_hdf5(f, gby, creation_date=date)
+                t.to_hdf5(f, gby, **dkw)
         # (A) what the library writes is valid
         v = verdict(base, sub=case.get("sub", False))
         if v != ("valid", "valid", True):
